@@ -234,7 +234,10 @@ class Circuit:
         spec = circuit.__circuit_spec
         # Check circuit size is valid
         n_heralds = len(circuit.heralds["input"])
-        if mode + circuit.n_modes - n_heralds > self.n_modes:
+        # Hidden herald modes after the start mode are not available to the
+        # added circuit
+        n_internal = len([i for i in self.__internal_modes if i > mode])
+        if mode + circuit.n_modes - n_heralds > self.n_modes - n_internal:
             raise ModeRangeError("Circuit to add is outside of mode range")
 
         # Include any existing internal modes into the circuit to be added
